@@ -202,6 +202,7 @@ struct World
     StreamCfg pending[2];
     StreamCfg applied[2]; // what the last acquire_configure was given
     size_t ring_sink[2] = { 0, 0 }, ring_filter[2] = { 0, 0 };
+    int last_camdev[2] = { -1, -1 }, last_stodev[2] = { -1, -1 }; // per stream
     std::deque<AcqRec> acqs;
     int acq_id = 0;
     bool running_expected = false;
@@ -653,6 +654,38 @@ judge_fail(const char* id, const char* fmt, ...)
     oracle_fail(oid.c_str(), "%s", buf);
 }
 
+// A stream that the last acquire_configure de-selected (no camera, no
+// storage) takes no part in the acquisition: the devices it used before stay
+// open but are not started.
+static void
+judge_deselected(const AcqRec& a)
+{
+    for (int s = 0; s < 2; ++s) {
+        const StreamCfg& c = a.cfg[s];
+        if (!c.valid || c.camdev >= 0 || c.stodev >= 0)
+            continue;
+        const StreamCfg& o = a.cfg[1 - s];
+        int sd = W->last_stodev[s], cd = W->last_camdev[s];
+        bool st_started = false;
+        if (sd >= 0 && !(o.valid && o.stodev == sd))
+            for (int x : W->sto[stodev_index(sd)].start_acqs)
+                st_started |= x == a.id;
+        bool cam_started = cd >= 0 && !(o.valid && o.camdev == cd) &&
+                           W->cam[camdev_index(cd)].starts > 0 &&
+                           W->cam[camdev_index(cd)].acq == a.id;
+        if (!st_started && !cam_started)
+            continue;
+        const char* fmt = "acquisition %d: stream %d was de-selected by the "
+                          "last acquire_configure, yet its %s device was "
+                          "started";
+        if (oracle_gates("C08.deselected_stream_started"))
+            oracle_fail("C08.deselected_stream_started", fmt, a.id, s,
+                        st_started ? "storage" : "camera");
+        judge_fail("C04.deselected_stream_started", fmt, a.id, s,
+                   st_started ? "storage" : "camera");
+    }
+}
+
 // storage content of one stream of one acquisition versus the camera
 static void
 judge_stream(const AcqRec& a, int s)
@@ -836,6 +869,7 @@ judge_after_end(AcqRec& a, const char* how)
     }
     for (int s = 0; s < 2; ++s)
         judge_stream(a, s);
+    judge_deselected(a);
 }
 
 // ------------------------------------------------------------- monitor
@@ -1244,6 +1278,7 @@ struct RtHarness : Harness
         size_t maxframe = 0, maxout = 0;
         std::vector<std::string> ops;
         bool mon_on[2] = { false, false };
+        bool configure_after_fail = false;
         for (int a = 0; a < nacq; ++a) {
             bool last = a == nacq - 1;
             // the last acquisition of fault/abort runs is clean so that
@@ -1299,7 +1334,8 @@ struct RtHarness : Harness
                 // a stream that was configured earlier is de-selected (its
                 // devices stay open until shutdown), or its camera refuses the
                 // new settings
-                if (prog_prof && a > 0 && s == 1 && g.chance(0.3)) {
+                if ((prog_prof || abort_prof) && a > 0 && s == 1 &&
+                    g.chance(0.3)) {
                     sc[s].cam = "none";
                     sc[s].sto = "none";
                 }
@@ -1312,7 +1348,9 @@ struct RtHarness : Harness
                 maxout = std::max(maxout, frame_bytes(sc[s], sc[s].avg > 1));
                 ops.push_back(cfg_line(s, sc[s]));
             }
-            ops.push_back("configure");
+            ops.push_back(configure_after_fail ? "configure afterfail=1"
+                                               : "configure");
+            configure_after_fail = false;
             if (fullring) {
                 if (mon_on[0])
                     ops.push_back("mon s=0 on=0");
@@ -1334,6 +1372,20 @@ struct RtHarness : Harness
                 }
             }
             ops.push_back("start");
+            {
+                // acquire_start is scripted to fail: the client sees the error
+                // (perhaps tries once more) and configures something else
+                // straight away, without stop or abort
+                bool start_fails = false;
+                for (int s = 0; s < nstreams; ++s)
+                    start_fails |= sc[s].cs.fail_start || sc[s].ss.fail_start;
+                if (prog_prof && start_fails && !last && g.chance(0.5)) {
+                    if (g.chance(0.5))
+                        ops.push_back("start");
+                    configure_after_fail = true;
+                    continue;
+                }
+            }
             bool ends_by_itself = true;
             for (int s = 0; s < nstreams; ++s)
                 ends_by_itself &= sc[s].n != INF_FRAMES && !sc[s].trig;
@@ -1598,6 +1650,12 @@ struct RtHarness : Harness
         (void)rc;
         w->applied[0] = w->pending[0];
         w->applied[1] = w->pending[1];
+        for (int s = 0; s < 2; ++s) {
+            if (w->pending[s].valid && w->pending[s].camdev >= 0)
+                w->last_camdev[s] = w->pending[s].camdev;
+            if (w->pending[s].valid && w->pending[s].stodev >= 0)
+                w->last_stodev[s] = w->pending[s].stodev;
+        }
         for (int s = 0; s < 2; ++s)
             if (w->pending[s].valid)
                 storage_properties_destroy(&props.video[s].storage.settings);
@@ -1761,6 +1819,22 @@ struct RtHarness : Harness
                 if (w->pending[s].cam[0] == 'r' || w->pending[s].sto == "trash")
                     w->real_devices = true;
             } else if (op.name == "configure") {
+                if (w->running_expected && current_acq() &&
+                    !current_acq()->start_ok && !current_acq()->judged &&
+                    op.i("afterfail", 0)) {
+                    // acquire_start returned an error: the client knows that
+                    // nothing is running and configures something else
+                    AcqRec* pa = current_acq();
+                    pa->ended = "stop";
+                    pa->end_invoked_seq = pa->end_returned_seq = ++w->seq;
+                    pa->judged = true;
+                    w->running_expected = false;
+                    w->autotrig_stop = true;
+                    for (int t : w->helper_tids)
+                        join(t);
+                    w->helper_tids.clear();
+                    probe("reach.configure_after_failed_start");
+                }
                 if (w->running_expected)
                     continue; // re-configuration while running is excluded
                 do_configure();
